@@ -60,6 +60,7 @@ Record bus_rec := mkBus {
   b_nodeNames : gmap name handle;     (* Bus.nodeNames: node name -> node handle *)
   b_nodeIDs : gmap Z handle;          (* Bus.nodeIDs: node id -> node handle *)
   b_static : gmap Z handle;           (* Bus.messageStaticCANIDs: static CAN-ID -> message *)
+  b_type : Z;                         (* Bus.typ (0 = BusTypeCAN2A, set by Bus.SetType) *)
 }.
 Record node_rec := mkNode {
   nd_name : name;
@@ -111,7 +112,7 @@ Record state := mkState {
 
 Global Instance eta_net : Settable _ := settable! mkNet <n_buses; n_busNames>.
 Global Instance eta_bus : Settable _ :=
-  settable! mkBus <b_name; b_parent; b_nodeInts; b_nodeNames; b_nodeIDs; b_static>.
+  settable! mkBus <b_name; b_parent; b_nodeInts; b_nodeNames; b_nodeIDs; b_static; b_type>.
 Global Instance eta_node : Settable _ := settable! mkNode <nd_name; nd_id; nd_ifaces; nd_count>.
 Global Instance eta_iface : Settable _ :=
   settable! mkIface <i_node; i_number; i_parent; i_sent; i_sentNames; i_sentIDs; i_sentStatic; i_received>.
@@ -133,5 +134,6 @@ Definition bad (s : state) : state * result := (s, Err [(BadHandle, WNone)]).
 Definition modify_key {K} `{Countable K} {V} (old new : K) (v : V) (m : gmap K V) : gmap K V :=
   <[new := v]> (delete old m).
 
-(* the bus accepts CAN 2.0A payloads only (Bus.verifyMessageSize; BusTypeCAN2A is the only type) *)
-Definition bus_max_size : Z := 8.
+(* Bus.verifyMessageSize: a CAN 2.0A bus (type 0) accepts payloads of at most 8 bytes, a bus of any
+   other type accepts none *)
+Definition too_big (B : bus_rec) (size : Z) : bool := if (b_type B =? 0)%Z then (8 <? size)%Z else true.
